@@ -1,4 +1,5 @@
 import LinOp.C15.ProofsSem
+import LinOp.C15.ProofsBind
 import LinOp.C15.Gen
 /-!
 C15 — torch.* dispatch on operators matches the methods, in either argument order.
@@ -53,6 +54,14 @@ theorem unregistered_raises {κ : Type} (T : Tables) (f : String) (args : List A
     (hc : Arg.op c ∈ args) (h1 : T.first.lookup f = none) (h2 : T.second.lookup f = none) :
     dispatch T f args kw = .notImplementedError :=
   dispatch_unregistered T f args kw c hc h1 h2
+
+/-- …also when the operator sits **inside a list / tuple argument** (`torch.cat([op, T])`, `torch.stack((T, op), 0)`) or is
+passed by keyword: torch finds it (`kwops`), `__torch_function__` sees top-level arguments `args` none of which need be an
+operator, and still raises `NotImplementedError` for every function in neither table. -/
+theorem unregistered_raises_nested {κ : Type} (T : Tables) (f : String) (args kwops : List Arg) (kw : κ) (c : String)
+    (hc : Arg.op c ∈ args ++ kwops) (hne : args ≠ []) (h1 : T.first.lookup f = none) (h2 : T.second.lookup f = none) :
+    dispatchK T f args kwops kw = .notImplementedError :=
+  dispatchK_unregistered T f args kwops kw c hc hne h1 h2
 
 /-- The `types` guard: an argument of a class that is neither a Tensor nor a LinearOperator (but takes part in
 the torch-function protocol) makes every call raise `NotImplementedError`, registered or not. -/
@@ -313,6 +322,212 @@ where
 
 end Generated
 
+
+/-! ### Argument forwarding: every argument of `torch.f(op, *a, **k)` reaches the parameter it means -/
+
+section Forwarding
+
+/-- **Forwarding agrees with torch's binding** (any signatures).  `__torch_function__` passes `*args, **kwargs` on unchanged,
+so the method's own signature `sigM` decides where they land; torch on the dense tensor binds the same call against `sigT`.
+If `sigM`'s names are a prefix of `sigT`'s and the defaults of the parameters the call leaves out agree (`sigCompatGiven given`,
+every name in `given` supplied positionally or by keyword), then whenever both accept the call, every parameter of the method
+holds exactly the value torch gives the parameter of that name — positional or keyword, in any mixture. -/
+theorem forward_binding_agrees (sigM sigT : Sig) (pos : List String) (kw envM envT : Env) (given : List String)
+    (hc : sigCompatGiven given sigM sigT = true)
+    (hg : ∀ g ∈ given, g ∈ Sig.names (sigM.take pos.length) ∨ (kw.lookup g).isSome = true)
+    (hM : bind sigM pos kw = .ok envM) (hT : bind sigT pos kw = .ok envT) :
+    ∀ q ∈ sigM.names, envM.lookup q = envT.lookup q :=
+  fun q hq => bind_agree sigM sigT pos kw envM envT given hc hg hM hT q hq
+
+/-- **Nothing is dropped silently**: a call the method accepts uses every positional value and every keyword (so an argument
+the method does not know makes it raise `TypeError`), and the torch parameters the method lacks stay at torch's default. -/
+theorem forward_drops_nothing (sigM sigT : Sig) (pos : List String) (kw envM envT : Env)
+    (hpre : sigM.names.isPrefixOf sigT.names = true)
+    (hM : bind sigM pos kw = .ok envM) (hT : bind sigT pos kw = .ok envT) :
+    pos.length ≤ sigM.length ∧ (∀ e ∈ kw, e.1 ∈ sigM.names) ∧ envM.map Prod.fst = sigM.names ∧
+      ∀ q, q ∉ sigM.names → envT.lookup q = (sigT.find? fun p => p.name == q).map fun p => p.dflt.getD "" := by
+  obtain ⟨h1, h2, h3⟩ := bind_uses_everything hM
+  exact ⟨h1, h2, h3, fun q hq => bind_rest_default sigM sigT pos kw envM envT hpre hM hT q hq⟩
+
+/-- **The second-argument path** `func(args[1], args[0], *args[2:], **kwargs)`: binding the swapped call differs from binding
+the original one in the first two parameters only — every further positional argument (`rtol`, `atol`, `equal_nan` of
+`torch.isclose(x, op, rtol, atol, equal_nan)`) and every keyword reaches the same parameter with the same value. -/
+theorem second_path_forwards_extra_arguments (sig : Sig) (a b : String) (rest : List String) (kw env : Env)
+    (h : bind sig (a :: b :: rest) kw = .ok env) :
+    ∃ n1 n2 tl, env = (n1, a) :: (n2, b) :: tl ∧ bind sig (b :: a :: rest) kw = .ok ((n1, b) :: (n2, a) :: tl) :=
+  bind_swap sig a b rest kw env h
+
+/-- Every override of a registered method has the parameter list of the base-class definition, on every operator class:
+method resolution by *name* on the subclass never changes how the arguments are bound. -/
+theorem table_handler_signature_uniform :
+    ∀ c ∈ operatorClasses, ∀ e ∈ handledFirst ++ handledSecond,
+      (handlerSig c e.2).isSome = true ∧ handlerSig c e.2 = methodSig "LinearOperator" e.2 := by
+  decide +kernel
+
+/-- The registered functions whose handler signature is **not** `sigCompat` with torch's, each with its own statement below:
+`torch.diagonal` (default dims, finding), `add`/`sub` (`alpha=None` means 1), `transpose` / `linalg.solve` (parameter names
+differ: positional forms only, keyword forms raise `TypeError`), `permute` (`*dims`). -/
+def forwardingExceptions : List String :=
+  ["torch.diagonal", "torch.add", "torch.sub", "torch.Tensor.add", "torch.Tensor.sub", "torch.transpose", "torch.linalg.solve",
+   "torch.permute"]
+
+/-- **Every other registered function, both tables**: the handler's parameters after the operands are torch's, in torch's order,
+with torch's defaults (or required). -/
+theorem table_forwarding_compatible :
+    ∀ e ∈ handledFirst ++ handledSecond, e.1 ∈ forwardingExceptions ∨ entryForwardOK e = true := by
+  decide +kernel
+
+/-- **One-operand and two-operand calls on the generated tables**: for every operator class, every registered function outside
+`forwardingExceptions` and every call form (`pos` = positional arguments after the operands, `kw` = keywords) that both the
+handler found on the class and torch accept, the handler's parameters hold torch's values and the parameters the handler lacks
+are at torch's defaults. -/
+theorem forward_generated (c : String) (hc : c ∈ operatorClasses) (e : String × String)
+    (he : e ∈ handledFirst ++ handledSecond) (hne : e.1 ∉ forwardingExceptions)
+    (n : Nat) (sT sM : Sig) (hT : torchSig e.1 = some (n, sT)) (hM : handlerSig c e.2 = some sM)
+    (pos : List String) (kw envM envT : Env)
+    (hbM : bind (sM.drop n) pos kw = .ok envM) (hbT : bind sT pos kw = .ok envT) :
+    (∀ q ∈ Sig.names (sM.drop n), envM.lookup q = envT.lookup q) ∧
+      ∀ q, q ∉ Sig.names (sM.drop n) → envT.lookup q = (sT.find? fun p => p.name == q).map fun p => p.dflt.getD "" := by
+  have hu := (table_handler_signature_uniform c hc e he).2
+  rw [hM] at hu
+  have hok : entryForwardOK e = true := by
+    rcases table_forwarding_compatible e he with h | h
+    · exact absurd h hne
+    · exact h
+  simp only [entryForwardOK, hT, ← hu, Bool.and_eq_true] at hok
+  have hcompat := hok.2
+  refine ⟨fun q hq => bind_agree (sM.drop n) sT pos kw envM envT [] (sigCompatGiven_of_sigCompat _ _ hcompat []) (by simp) hbM hbT q hq,
+    fun q hq => bind_rest_default (sM.drop n) sT pos kw envM envT ?_ hbM hbT q hq⟩
+  simp only [sigCompat, Bool.and_eq_true] at hcompat
+  exact hcompat.1
+
+/-- Parameters after the operand of `LinearOperator.diagonal` (today's handler of `torch.diagonal`) and of `torch.diagonal`. -/
+def diagSigMethod : Sig := toSig [("offset", 0, some "0"), ("dim1", 0, some "-2"), ("dim2", 0, some "-1")]
+def diagSigTorch : Sig := toSig [("offset", 0, some "0"), ("dim1", 0, some "0"), ("dim2", 0, some "1")]
+
+/-- The generated tables: torch's signature is `diagSigTorch`, and the registered handler of `torch.diagonal` has either today's
+`diagSigMethod` (finding open) or torch's own defaults (after notes/C15_fix_6.diff). -/
+theorem table_diagonal_signatures :
+    torchSig "torch.diagonal" = some (1, diagSigTorch) ∧
+      ∀ e ∈ handledFirst, e.1 = "torch.diagonal" →
+        (methodSig "LinearOperator" e.2).map (·.drop 1) = some diagSigMethod ∨
+        (methodSig "LinearOperator" e.2).map (·.drop 1) = some diagSigTorch := by
+  decide +kernel
+
+/-- **Finding (open), precise counterexample: `torch.diagonal(op)` with default dims.**  The method's defaults are
+`dim1=-2, dim2=-1`, torch's are `dim1=0, dim2=1`: for the call without dims — and for every call that supplies only one of them —
+the two bindings give different values to `dim1` / `dim2` (the same dims for a matrix, different ones as soon as there is a
+batch dimension).  `sigCompat` is refuted, so `forward_generated` does not apply to `torch.diagonal`. -/
+theorem diagonal_default_dims_counterexample :
+    sigCompat diagSigMethod diagSigTorch = false ∧
+    (∃ envM envT, bind diagSigMethod [] [] = .ok envM ∧ bind diagSigTorch [] [] = .ok envT ∧
+      envM.lookup "dim1" = some "-2" ∧ envT.lookup "dim1" = some "0" ∧
+      envM.lookup "dim2" = some "-1" ∧ envT.lookup "dim2" = some "1" ∧ envM.lookup "offset" = envT.lookup "offset") ∧
+    (∃ envM envT, bind diagSigMethod ["0"] [("dim2", "-1")] = .ok envM ∧ bind diagSigTorch ["0"] [("dim2", "-1")] = .ok envT ∧
+      envM.lookup "dim1" = some "-2" ∧ envT.lookup "dim1" = some "0" ∧ envM.lookup "dim2" = envT.lookup "dim2") := by
+  refine ⟨by decide +kernel, ⟨[("offset", "0"), ("dim1", "-2"), ("dim2", "-1")], [("offset", "0"), ("dim1", "0"), ("dim2", "1")], ?_⟩,
+    ⟨[("offset", "0"), ("dim1", "-2"), ("dim2", "-1")], [("offset", "0"), ("dim1", "0"), ("dim2", "-1")], ?_⟩⟩
+  · decide +kernel
+  · decide +kernel
+
+/-- …and the part that holds (`_partial`; the full statement is `forward_generated` for `torch.diagonal`, refuted above):
+**whenever `dim1` and `dim2` are both supplied** — positionally, by keyword, or one each — every parameter of the handler holds
+torch's value, on every operator class. -/
+theorem diagonal_forwarding_partial (c : String) (hc : c ∈ operatorClasses) (e : String × String) (he : e ∈ handledFirst)
+    (hd : e.1 = "torch.diagonal") (sM : Sig) (hM : handlerSig c e.2 = some sM)
+    (pos : List String) (kw envM envT : Env)
+    (hg : ∀ g ∈ ["dim1", "dim2"], g ∈ Sig.names ((sM.drop 1).take pos.length) ∨ (kw.lookup g).isSome = true)
+    (hbM : bind (sM.drop 1) pos kw = .ok envM) (hbT : bind diagSigTorch pos kw = .ok envT) :
+    ∀ q ∈ Sig.names (sM.drop 1), envM.lookup q = envT.lookup q := by
+  have hu := (table_handler_signature_uniform c hc e (List.mem_append_left _ he)).2
+  rw [hM] at hu
+  have hcg : sigCompatGiven ["dim1", "dim2"] (sM.drop 1) diagSigTorch = true := by
+    rcases table_diagonal_signatures.2 e he hd with h | h
+    · rw [← hu] at h
+      have : sM.drop 1 = diagSigMethod := by simpa using h
+      rw [this]; decide +kernel
+    · rw [← hu] at h
+      have : sM.drop 1 = diagSigTorch := by simpa using h
+      rw [this]; decide +kernel
+  exact fun q hq => bind_agree (sM.drop 1) diagSigTorch pos kw envM envT ["dim1", "dim2"] hcg hg hbM hbT q hq
+
+/-- `alpha=None` (the default of `add`, `sub`, `__radd__`, `__rsub__`) means torch's default `alpha=1`. -/
+theorem alpha_default_none_means_one {α : Type} [CommRing α] {n : Nat} (b : BinFn) (hb : b = .add ∨ b = .sub) (X Y : Mat α n n) :
+    spec b X Y none = spec b X Y (some 1) := by
+  rcases hb with rfl | rfl <;> simp [spec]
+
+end Forwarding
+
+
+/-! ### Subclass priority: which handler runs, and that it does not matter -/
+
+/-- torch tries the **most specific** class first: with operators of classes `a` (left) and `b` (right), `b` a strict subclass of
+`a`, the overloaded-argument list is `[b, a]`; a Tensor-subclass operand keeps its place in front of the operator but its
+handler (`Tensor.__torch_function__`, returns `NotImplemented` for a LinearOperator among `types`) is skipped. -/
+theorem subclass_handler_first (t : ClassTable) (a b : String) (hne : a ≠ b) (hsub : isSubclass t b a = true)
+    (hnot : isSubclass t a b = false) :
+    overloaded t [.op a, .op b] = [.opc b, .opc a] ∧ overloaded t [.op b, .op a] = [.opc b, .opc a] := by
+  refine ⟨by simp [overloaded_op_op, hne, hsub], ?_⟩
+  rw [overloaded_op_op]
+  have hne' : b ≠ a := fun h => hne h.symm
+  simp [hne', hnot]
+
+/-- **The result does not depend on whose `__torch_function__` runs.**  For operators of classes `a ⊋ b` (in this order) and a
+function registered in both tables, the handler of `a` (first-argument path, `a.m₁(x, y)`) and the handler of `b` (the one torch
+actually calls; second-argument path, `b.m₂(y, x)`) both evaluate to `f(⟦x⟧, ⟦y⟧)` — on the generated tables, every pair of
+operator classes, any commutative ring, any size. -/
+theorem handler_order_irrelevant_generated {α : Type} [CommRing α] {n : Nat}
+    (a b : String) (ha : a ∈ operatorClasses) (hb : b ∈ operatorClasses) (hne : a ≠ b) (hsub : isSubclass classes b a = true)
+    (e1 : String × String) (he1 : e1 ∈ handledFirst) (e2 : String × String) (he2 : e2 ∈ handledSecond) (he : e1.1 = e2.1)
+    (hni : e1.1 ≠ "torch.isclose") (f : BinFn) (hf : BinFn.ofName e1.1 = some f) (types : List OType) (hty : typesOK types = true)
+    (X Y : Mat α n n) :
+    ∃ d1 d2 m1 m2,
+      torchFunction genTables a e1.1 types [.op a, .op b] (none : Option α) = .call d1 e1.2 [.op a, .op b] false none ∧
+      torchFunction genTables b e1.1 types [.op a, .op b] (none : Option α) = .call d2 e2.2 [.op b, .op a] true none ∧
+      Meth.ofName e1.2 = some m1 ∧ Meth.ofName e2.2 = some m2 ∧
+      methSem (acceptsAlpha genTables d1 e1.2) m1 X Y none = spec f X Y none ∧
+      methSem (acceptsAlpha genTables d2 e2.2) m2 Y X none = spec f X Y none := by
+  have h1 := table_first_sound a ha e1 he1 (by simp [hf])
+  have h2 : secondEntryOK genTables b e2 = true := by
+    rcases table_second_sound b hb e2 he2 with h | h
+    · exact absurd (he.trans h) hni
+    · exact h
+  have hnot := table_subclass_antisymm a ha b hb hne hsub
+  simp only [firstEntryOK, Bool.and_eq_true, beq_iff_eq] at h1
+  simp only [secondEntryOK, Bool.and_eq_true, beq_iff_eq] at h2
+  obtain ⟨hl1, hm1⟩ := h1
+  obtain ⟨hl2, hm2⟩ := h2
+  rw [← he] at hl2 hm2
+  cases hr1 : resolve genTables.classes a e1.2 with
+  | none => simp [hr1] at hm1
+  | some d1 =>
+    cases hr2 : resolve genTables.classes b e2.2 with
+    | none => simp [hr2] at hm2
+    | some d2 =>
+      cases hmm1 : Meth.ofName e1.2 with
+      | none => simp [hr1, hf, hmm1] at hm1
+      | some m1 =>
+        cases hmm2 : Meth.ofName e2.2 with
+        | none => simp [hr2, hf, hmm2] at hm2
+        | some m2 =>
+          simp only [hr1, hf, hmm1, Bool.and_eq_true] at hm1
+          simp only [hr2, hf, hmm2] at hm2
+          refine ⟨d1, d2, m1, m2, ?_, ?_, rfl, rfl, methSem_direct _ f m1 hm1.1 X Y, methSem_reflected _ f m2 hm2 X Y⟩
+          · exact torchFunction_first genTables a e1.1 e1.2 d1 types [.op b] none (.op a)
+              (by simpa [isInstance] using isSubclass_self_of_resolve genTables.classes a e1.2 d1 hr1) hty hl1 hr1
+          · exact torchFunction_second genTables b e1.1 e2.2 d2 types [] none (.op a) (.op b)
+              (by simpa [isInstance, genTables] using hnot) hty hl2 hr2
+
+/-- A Tensor-subclass instance as the other operand: its handler is skipped and the operator's reflected handler runs with
+swapped operands, as for a plain tensor (`Parameter` *is* a plain tensor for torch's overload collection). -/
+theorem tensor_subclass_operand_dispatch {κ : Type} (T : Tables) (c f m d : String) (kw : κ)
+    (hf : T.second.lookup f = some m) (hr : resolve T.classes c m = some d) :
+    dispatch T f [.tsub, .op c] kw = .call d m [.op c, .tsub] true kw := by
+  have hov : overloaded T.classes [.tsub, .op c] = [.tsub, .opc c] := by
+    simp [overloaded, collect, Arg.otype?, insertBeforeSuper, OType.isSub]
+  simp only [dispatch, hov, hasOp, if_true, handlers]
+  exact torchFunction_second T c f m d _ [] kw .tsub (.op c) (by simp [isInstance]) (by simp [typesOK]) hf hr
+
 /-! ### Non-vacuity -/
 
 example : resolve classes "IdentityLinearOperator" "matmul" = some "IdentityLinearOperator" := by decide +kernel
@@ -325,5 +540,16 @@ example : dispatch genTables "torch.sub" [.op "DiagLinearOperator", .op "Constan
     .call "LinearOperator" "__rsub__" [.op "ConstantDiagLinearOperator", .op "DiagLinearOperator"] true () := by
   decide +kernel
 example : dispatch genTables "torch.trace" [.op "DenseLinearOperator"] () = .notImplementedError := by decide +kernel
+-- forwarding: `torch.isclose(x, op, 0.01, equal_nan=True)` reaches `_risclose(op, x, 0.01, equal_nan=True)`; both bindings succeed
+example : (handlerSig "DiagLinearOperator" "_risclose").map (fun s => bind (s.drop 2) ["0.01"] [("equal_nan", "True")]) =
+    some (.ok [("rtol", "0.01"), ("atol", "1e-08"), ("equal_nan", "True")]) := by decide +kernel
+example : (torchSig "torch.isclose").map (fun s => bind s.2 ["0.01"] [("equal_nan", "True")]) =
+    some (.ok [("rtol", "0.01"), ("atol", "1e-08"), ("equal_nan", "True")]) := by decide +kernel
+example : "torch.isclose" ∉ forwardingExceptions := by decide
+-- handler_order_irrelevant_generated: Diag − ConstantDiag through `Diag.sub` or through `ConstantDiag.__rsub__`
+example : "DiagLinearOperator" ∈ operatorClasses ∧ "ConstantDiagLinearOperator" ∈ operatorClasses ∧
+    isSubclass classes "ConstantDiagLinearOperator" "DiagLinearOperator" = true ∧
+    ("torch.sub", "sub") ∈ handledFirst ∧ ("torch.sub", "__rsub__") ∈ handledSecond ∧ BinFn.ofName "torch.sub" = some .sub ∧
+    typesOK [.opc "ConstantDiagLinearOperator", .opc "DiagLinearOperator"] = true := by decide +kernel
 
 end LinOp.C15
